@@ -553,6 +553,8 @@ def run_impl(case):
                         obj.motion_filter(op["d"], op["a"])
                 except filters.FilterException:
                     out = "E_FILTER"
+            elif k == "crop" and prev["stamps"] is None:
+                info["skipped_untimed"] = True        # a path without timestamps has no time range to crop: not an operation on it
             elif k == "crop":
                 st = prev["stamps"]
                 lo, hi = float(st[int(op["lo"] * n)]), float(st[int(op["hi"] * n)])
@@ -904,7 +906,7 @@ def split_sim3(T):
 
 def effect(op, st, p, s, tr, tp, projected):
     k = op["op"]
-    if st["info"].get("skipped_on_empty"):
+    if st["info"].get("skipped_on_empty") or st["info"].get("skipped_untimed"):
         return None
     unchanged_stamps = (p["stamps"] is None and s["stamps"] is None) or np.array_equal(p["stamps"], s["stamps"])
     if k in ("rd", "chk", "cp"):
